@@ -96,13 +96,14 @@ CLAIMS = {
 # what was added to a check after its entry above was written (rounds 2-3 of the seeded changes, DESIGN 11.7-11.10)
 ADDENDA = {
     "C01": "Also: hostile PAKE bodies (malformed, off-curve, reflected) end in WrongPasswordError; several sessions alive in one process.",
-    "C02": "Also: relabelled_queued_before_pake_rejected; hold/release/dropmsg schedules; oracle clause relabelled-accepted-as-valid.",
+    "C02": "Run-level phase_at_most_once / each_phase_once_and_honest now PROVED for whole runs (token invariant over Mailbox._processed, Order's queue and the Boss buffers), replacing the per-step partial. Also: bad_pake_scared, message_without_key_scared, relabelled_queued_before_pake_rejected; hold/release/dropmsg schedules; oracle clause relabelled-accepted-as-valid.",
     "C03": "Also: buffers_independent (dilate-N vs numbered phases), closing_delivers_nothing, all 18 Boss outputs pinned; close/self-close with parked phases.",
+    "C04": "Channel hypothesis DISCHARGED: net_receiver_success_exact, net_both_success_exact, net_cut_no_success_no_final, net_sender_success_needs_matching_ack, net_first_bad_frame_no_success hold over C06's connection model for every adversary schedule under C06's own ideal-AEAD hypothesis (WV.Proofs.C04_Net).",
     "C05": "Also: config_cwd_is_process_cwd / dest_is_child_of_process_cwd (entry point builds the Config; $PWD never consulted).",
-    "C07": "Also: listener_lifetime, port_closed_after_success / _once_fired / _by_deadline; late arrivals after every outcome.",
+    "C07": "same_link now PROVED on a two-sided model (Sender world + Receiver world + links; strangers are the connections that are no link end): both connect() results are the two ends of one link, the one the Sender wrote `go` on, every other connection closed; result_is_negotiated. Also: listener_lifetime, port_closed_after_success / _once_fired / _by_deadline; late arrivals after every outcome.",
     "C08": "Environment includes hostile mailbox participants (DESIGN 11.7).",
     "C09": "Also: key_exchange_always_completable — from every reachable state in which a participant with our code exists and nothing has ended the session, a finite cooperative continuation verifies the peer's version, gets our PAKE/version echoed and empties Send's queue (backward-fixpoint certificate, native_decide, lifted by a kernel-checked soundness theorem): no reachable state is a trap for the session; fairness itself is not proved. Environment includes hostile mailbox participants and two-step connection establishment (DESIGN 11.7).",
-    "C10": "Also: parked-record queue and per-subchannel pending data in the model (ARQ invariant over parked + in flight + unsent), per-step L4 theorems; second world with the real DilatedConnectionProtocol/Connector turn and Noise chunk boundaries. Partial: global L4 composition stated as a def + per-step theorems.",
+    "C10": "End-to-end theorems end_to_end / end_to_end_rev / end_to_end_complete PROVED (application calls on one side -> per-subchannel callbacks on the other, exactly once, in order, boundaries kept, any number of reconnects, parked bursts, late listeners); subchannel_delivery_all_runs replaces the former def. Also: parked-record queue and per-subchannel pending data in the model (ARQ invariant over parked + in flight + unsent), per-step L4 theorems; second world with the real DilatedConnectionProtocol/Connector turn and Noise chunk boundaries.",
     "C11": "Also: per-direction reachability (one_direction_reachable; reconverge_no_trap in all three networks).",
     "C12": "Also: explicit 32-bit and chunk-size boundary corpus through whole connections.",
     "C13": "Also: real link layer in the world; parked_open_data_close, watermark_survives_connection_loss, resent_burst_ignored / resent_record_ignored; generated flags for FIFO drain and watermark.",
